@@ -299,8 +299,16 @@ func TestVerifC08(t *testing.T) {
 		}
 	}
 
+	// a second classifier with every trace phase switched on (into a discarding
+	// Tracer): what is traced between reading and the error check sees a failed read
+	ct := vBuild(thr, docs)
+	ct.SetTraceConfiguration(&TraceConfiguration{TracePhases: "*", TraceLicenses: "*", Tracer: func(string, ...interface{}) {}})
 	checkFail := func(cs *vCase, in []byte, k int, together bool, chunk int) bool {
 		boom := vBoomErrors[(k+chunk)%len(vBoomErrors)]
+		c := c
+		if k%3 == 2 {
+			c = ct
+		}
 		res, err := c.MatchFrom(&vFailReader{data: in, k: k, together: together, chunk: chunk, err: boom})
 		if err != boom {
 			cs.violation("reader-error-not-returned", "reader failed after %d of %d bytes (together=%v); MatchFrom returned err=%v", k, len(in), together, err)
